@@ -393,3 +393,58 @@ Section ZeroD.
     unfold Rmin, Rmax. destruct (Rle_dec T Tsh); split; nra.
   Qed.
 End ZeroD.
+
+(* 0D, any number of solidification steps: temperature stays in [lo, hi] (hi <= T_eq_l < T_m) and the ice fraction in
+   [0, water fraction], for shelf temperatures in [lo, hi] and a time step below the explicit limit uniformly in w *)
+Section ZeroDRun.
+  Variable P : @p1d R.
+  Variables area lo hi : R.
+  Notation mw := (q_mw P). Notation ms := (q_ms P). Notation m := (q_mass P). Notation Tm := (q_Tm P).
+  Notation kf := (q_kf P). Notation Ms := (q_Ms P). Notation Teql := (q_Teql P).
+  Hypothesis Hm : 0 < m.
+  Hypothesis Hmw : 0 < mw.
+  Hypothesis Hsol : 0 < ms * (kf / Ms).
+  Hypothesis HTe : Teql = Tm - ms * (kf / Ms) / mw.
+  Hypothesis Hhi : hi <= Teql.
+  Hypothesis HL : 0 <= q_Dh P * kf * ms / Ms.
+  Hypothesis Hstep : forall w, 0 <= w <= mw / m ->
+    0 < (q_cps P * (ms / m) + q_cpi P * w + q_cpw P * (1 - ms / m - w)) * q_rho P * q_V P
+    /\ 0 <= q_dt P * (area * q_K P) <= (q_cps P * (ms / m) + q_cpi P * w + q_cpw P * (1 - ms / m - w)) * q_rho P * q_V P.
+
+  Definition inv0 (s : R * R) : Prop := lo <= fst s <= hi /\ 0 <= snd s <= mw / m.
+  Definition step0 (s : R * R) (Tsh : R) : R * R := solid0 Rops P area Tsh (fst s) (snd s).
+
+  Lemma Teql_lt_Tm : Teql < Tm.
+  Proof. rewrite HTe. assert (0 < ms * (kf / Ms) / mw) by (apply Rdiv_lt_0_compat; assumption). lra. Qed.
+
+  Lemma step0_inv s Tsh : inv0 s -> lo <= Tsh <= hi -> inv0 (step0 s Tsh).
+  Proof.
+    intros [HT Hw] Hs. destruct s as [T w]. cbn [fst snd] in *. unfold step0, inv0. cbn [fst snd].
+    pose proof Teql_lt_Tm as HTT.
+    destruct (Hstep w Hw) as [Hd Hb].
+    pose proof (solid0_between P area Tsh T w Hd HL ltac:(lra) Hb) as B. cbv zeta in B.
+    assert (HT' : lo <= fst (solid0 Rops P area Tsh T w) <= hi).
+    { revert B. unfold Rmin, Rmax. destruct (Rle_dec T Tsh); intros; lra. }
+    split; [exact HT'|].
+    set (T' := fst (solid0 Rops P area Tsh T w)) in *.
+    assert (E : snd (solid0 Rops P area Tsh T w) = (mw - kf * ms / Ms / (Tm - T')) / m) by reflexivity.
+    rewrite E.
+    destruct (ice_relation P T' Hm Hsol Hmw HTe) as [A Bz].
+    assert (Hk : kf * ms / Ms = ms * (kf / Ms)) by (unfold Rdiv; ring). rewrite Hk.
+    destruct (Rlt_le_dec T' Teql) as [Hl|Hg].
+    - destruct (A Hl) as [E1 [L U]]. rewrite E1 in L, U. lra.
+    - assert (T' = Teql) by lra. rewrite H, HTe.
+      set (D := ms * (kf / Ms)) in *.
+      replace (Tm - (Tm - D / mw)) with (D / mw) by ring.
+      replace (D / (D / mw)) with mw by (field; split; lra).
+      replace ((mw - mw) / m) with 0 by (unfold Rdiv; ring).
+      split; [lra|]. apply Rlt_le, Rdiv_lt_0_compat; assumption.
+  Qed.
+
+  Theorem zeroD_solid_run_bounds shelf : forall s, inv0 s -> List.Forall (fun Tsh => lo <= Tsh <= hi) shelf ->
+    inv0 (fold_left step0 shelf s).
+  Proof.
+    induction shelf as [|x r IH]; intros s Hs Hf; [exact Hs|]. inversion Hf; subst. cbn [fold_left].
+    apply IH; [apply step0_inv; assumption|assumption].
+  Qed.
+End ZeroDRun.
